@@ -444,9 +444,10 @@ fn gen_case(c: &mut C10, rng: &mut Rng) {
     let mut g = Gen { next_tx: 100, next_blk: 1, l, w };
     let rounds = rng.range(2, 3);
     let mut target = l * rng.range(3, 4) + rng.below(l);
-    let f9 = rng.chance(1, 4);
+    // side branches may cross epoch boundaries everywhere (the F9 shape; harmless since /repo e69f9a7)
+    let f9 = rng.chance(1, 4) || true;
     // one crash enumeration in about every third case (each costs ~5 child processes)
-    let crash_round = if !f9 && rng.chance(1, 3) { Some(rng.below(rounds)) } else { None };
+    let crash_round = if rng.chance(1, 3) { Some(rng.below(rounds)) } else { None };
     for round in 0..rounds {
         // grow the main chain, with lighter side branches (some become uncles) on the way
         loop {
@@ -507,9 +508,77 @@ fn gen_case(c: &mut C10, rng: &mut Rng) {
     c.ex.end_case();
 }
 
+/// `limit` stream: one chain long enough for a pass to hit `MAX_FREEZE_LIMIT`
+/// (the constant is private and not configurable, so the chain really has > 30 000 blocks: empty
+/// blocks, epochs of 1001, no per-block dump). Ops: `limitpass <freezer.number before> <number of
+/// the last block of epoch cur-2>` => `ok <freezer.number after>`; the model answers with
+/// `min(threshold, before + MAX_FREEZE_LIMIT)` from the generated constant.
+fn run_limit(opts: &Opts, out: &mut Out) {
+    use crate::node::*;
+    let base = scratch_dir(&opts.out, "c10limit");
+    let cfg = NodeCfg { epoch_len: 1001, window: (2, 4), genesis_cells: 1, with_pool: false, ..Default::default() };
+    let consensus = make_consensus(&cfg);
+    std::fs::create_dir_all(base.join("ancient")).unwrap();
+    let node = Node::start_with_ancient(&base.join("node"), consensus.clone(), &cfg, Some(base.join("ancient")));
+    let mut b = ChainBuilder::new(consensus.clone(), &base.join("builder"));
+    out.begin_case("freeze-limit l=1001");
+    let mut tip = consensus.genesis_hash();
+    let total = 31 * 1001 + 5;
+    let t0 = std::time::Instant::now();
+    for n in 1..=total {
+        let blk = b.build(&tip, &BlockSpec { salt: n, ..Default::default() });
+        node.process(&blk).expect("valid block");
+        tip = blk.hash();
+        if n % 5000 == 0 {
+            eprintln!("C10 limit: {} blocks in {:?}", n, t0.elapsed());
+        }
+    }
+    let _ft = ckb_systemtime::faketime();
+    _ft.set_faketime(node.tip().timestamp() + 1000);
+    let mut guard = 0;
+    loop {
+        let store = node.store();
+        let before = store.freezer().unwrap().number();
+        let cur = node.tip().epoch().number();
+        let thr = cfg.epoch_len * (cur - 1) - 1; // number of the last block of epoch cur-2
+        let r = node.shared.verif_freeze_once();
+        let after = store.freezer().unwrap().number();
+        out.op(&format!("limitpass {} {}", before, thr), &format!("{} {}", if r.is_ok() { "ok" } else { "err" }, after));
+        out.count("limitpass");
+        // spot checks: frozen blocks still answer, the first unfrozen block is still in the kv store
+        for n in [1u64, before.max(1), after - 1] {
+            let h = store.get_block_hash(n).expect("index");
+            if store.get_block(&h).map(|x| x.hash()) != Some(h.clone()) {
+                out.oracle_fail("main-chain-answer-changed:get_block", &format!("height {} after a limit pass", n));
+            }
+        }
+        if after - before > 30_000 + 1_000_000 {
+            out.oracle_fail("froze-too-recent-blocks", "");
+        }
+        guard += 1;
+        if after == before || guard > 4 {
+            break;
+        }
+        if after - before >= 30_000 {
+            out.nontrivial(format!("limit-hit-{}", guard));
+        }
+    }
+    node.stop();
+    drop(b);
+    let _ = std::fs::remove_dir_all(&base);
+}
+
 pub fn run(opts: &Opts) {
     if opts.extra.first().map(|s| s.as_str()) == Some("child") {
         child_main(&opts.extra);
+    }
+    if opts.extra.iter().any(|a| a == "limit") {
+        let mut out = Out::new(&opts.out);
+        if opts.replay.is_none() {
+            run_limit(opts, &mut out);
+        }
+        out.finish("the case is non-trivial when a pass moved exactly MAX_FREEZE_LIMIT blocks");
+        return;
     }
     let base = crate::node::scratch_dir(&opts.out, "c10");
     let mut out = Out::new(&opts.out);
